@@ -23,6 +23,7 @@ def main():
     ap.add_argument('--tier', default=None)
     a = ap.parse_args()
     tier = a.tier or os.environ.get('VERIF_TIER') or 'quick'
+    os.environ['VF_TIER'] = tier
     if a.prop == 'replay':
         from . import replay
         sys.exit(replay.main(a.path))
